@@ -104,6 +104,9 @@ last_estate_ptr(other.last_estate_ptr)
 {
   sys.params=this;
   other.is_init=false; //other is no longer usable, since we stole its contents
+  //...until it is initialised again: ini() does not touch params, whose tables have just been
+  //moved away, so give it fresh ones
+  other.params=Const();
 }
 
 void SQuIDS::ini(unsigned int n, unsigned int nsu, unsigned int nrh, unsigned int nsc, double ti){
@@ -226,6 +229,7 @@ SQuIDS& SQuIDS::operator=(SQuIDS&& other){
   last_estate_ptr=other.last_estate_ptr;
   sys.params=this;
   other.is_init=false; //other is no longer usable, since we stole its contents
+  other.params=Const(); //fresh tables, so that other is complete again once it is re-initialised
   
   return(*this);
 }
